@@ -12,6 +12,9 @@ import (
 
 func init() { register("C06", checkC06) }
 
+// c06Prefix lets other properties (C10) run the queue rules under their own rule ids.
+var c06Prefix = "C06."
+
 func checkC06(c *Ctx) {
 	r, p := c.R, c.P
 	r.Explanation = "Decides structural necessary conditions of C06 on events/queue: (Q1) Processor.queue is only used with Processor.lock held (process() runs under its callers' lock); (Q2) atomic exit: on every path of processLoop, between observing the queue empty under the lock and giving up the running token the lock is never released — otherwise an Enqueue in that window finds the loop 'still running' and its item is stranded — and every return gives the token up exactly once; (Q3) execute pops in the same critical section in which it re-checked that the head is still the peeked item, and the callback receives the popped value; (Q4) Close waits for the loop goroutine on every path and, on the path that wins the stopped CAS, closes stopCh and takes the running token; the loop goroutine is spawned only after taking the token, with wg.Add before go and a deferred Done; (Q5) an item is executed only on the 'due within K' branch with K <= 500µs of scheduledTime.Sub(clock.Now()) or after the timer armed with that same duration fired; (Q6) Enqueue inserts with replace=true and always calls process(); the head-changed signal is sent when the loop is already running; (Q7) the heap orders by ScheduledTime().Before(i,j). NOT decided: exactly-once / ordering over all histories, timer accuracy, that isFirst is computed correctly."
@@ -181,8 +184,8 @@ func c06AtomicExitNamed(c *Ctx, loop *ssa.Function, lockID, tokenCh, construct, 
 	if bad == "" && !sawEmptyExit {
 		bad = "no exit taken on an empty queue found (loop never ends, or the emptiness test is not recognisable as Peek()'s ok result)"
 	}
-	r.Check(bad == "", "C06.Q2-atomic-exit", construct, p.Pos(loop.Pos()), "queue-empty observation and token release happen in one critical section", bad)
-	r.Check(badCnt == "", "C06.Q2-atomic-exit", construct2, p.Pos(loop.Pos()), "every return releases the token exactly once", badCnt)
+	r.Check(bad == "", c06Prefix+"Q2-atomic-exit", construct, p.Pos(loop.Pos()), "queue-empty observation and token release happen in one critical section", bad)
+	r.Check(badCnt == "", c06Prefix+"Q2-atomic-exit", construct2, p.Pos(loop.Pos()), "every return releases the token exactly once", badCnt)
 }
 
 func c06Execute(c *Ctx, lockID string) {
@@ -209,7 +212,7 @@ func c06Execute(c *Ctx, lockID string) {
 	})
 	construct := "events/queue.Processor.execute pop"
 	if pop == nil {
-		r.Violation("C06.Q3-execute", construct, p.Pos(fn.Pos()), "execute no longer pops the item it runs (item would run again)")
+		r.Violation(c06Prefix+"Q3-execute", construct, p.Pos(fn.Pos()), "execute no longer pops the item it runs (item would run again)")
 		return
 	}
 	why := ""
@@ -238,7 +241,7 @@ func c06Execute(c *Ctx, lockID string) {
 			why = "Pop is not guarded by 'head == the item passed in'"
 		}
 	}
-	r.Check(why == "", "C06.Q3-execute", construct, p.Pos(pop.Pos()), "Pop happens in the critical section that verified head == peeked item", why)
+	r.Check(why == "", c06Prefix+"Q3-execute", construct, p.Pos(pop.Pos()), "Pop happens in the critical section that verified head == peeked item", why)
 	okArg := len(execCalls) > 0
 	for _, ec := range execCalls {
 		if len(ec.Call.Args) != 1 || ec.Call.Args[0] != callResult(pop, 0) {
@@ -251,7 +254,7 @@ func c06Execute(c *Ctx, lockID string) {
 			r.Note("C06: executeFn is invoked with Processor.lock held (callbacks that Enqueue would deadlock) — not part of the statement")
 		}
 	}
-	r.Check(okArg, "C06.Q3-execute", "events/queue.Processor.execute callback", p.Pos(fn.Pos()), "executeFn receives exactly the popped value, after the pop", "executeFn is not called with the value popped from the queue (or is called before/without the pop)")
+	r.Check(okArg, c06Prefix+"Q3-execute", "events/queue.Processor.execute callback", p.Pos(fn.Pos()), "executeFn receives exactly the popped value, after the pop", "executeFn is not called with the value popped from the queue (or is called before/without the pop)")
 }
 
 func c06Close(c *Ctx, loop *ssa.Function, tokenCh string) {
@@ -286,7 +289,7 @@ func c06Close(c *Ctx, loop *ssa.Function, tokenCh string) {
 			okWait = false
 		}
 	})
-	r.Check(okWait, "C06.Q4-close", "events/queue.Processor.Close waits", p.Pos(fn.Pos()), "wg.Wait on every path", "Close can return without waiting for the loop goroutine (a callback may still run after Close returned)")
+	r.Check(okWait, c06Prefix+"Q4-close", "events/queue.Processor.Close waits", p.Pos(fn.Pos()), "wg.Wait on every path", "Close can return without waiting for the loop goroutine (a callback may still run after Close returned)")
 	// CAS path
 	okCAS := false
 	allInstrs(fn, func(in ssa.Instruction) {
@@ -305,7 +308,7 @@ func c06Close(c *Ctx, loop *ssa.Function, tokenCh string) {
 			okCAS = true
 		}
 	})
-	r.Check(okCAS, "C06.Q4-close", "events/queue.Processor.Close stop+token", p.Pos(fn.Pos()), "winner of the stopped CAS closes stopCh and then takes the running token", "Close no longer closes stopCh before taking the running token on the CAS-success path (it would not stop the loop, or not wait for it)")
+	r.Check(okCAS, c06Prefix+"Q4-close", "events/queue.Processor.Close stop+token", p.Pos(fn.Pos()), "winner of the stopped CAS closes stopCh and then takes the running token", "Close no longer closes stopCh before taking the running token on the CAS-success path (it would not stop the loop, or not wait for it)")
 	// spawn in process(): go dominated by send-case edge on token; wg.Add before; goroutine defers Done and calls processLoop
 	proc := p.Func("events/queue", "Processor.process")
 	okSpawn, n := true, 0
@@ -366,7 +369,7 @@ func c06Close(c *Ctx, loop *ssa.Function, tokenCh string) {
 	if n == 0 {
 		okSpawn, why = false, "process() no longer starts the loop goroutine"
 	}
-	r.Check(okSpawn, "C06.Q4-close", "events/queue.Processor.process spawn", p.Pos(proc.Pos()), "loop goroutine started only with the token, tracked by wg", why)
+	r.Check(okSpawn, c06Prefix+"Q4-close", "events/queue.Processor.process spawn", p.Pos(proc.Pos()), "loop goroutine started only with the token, tracked by wg", why)
 }
 
 func c06NotEarly(c *Ctx, loop *ssa.Function) {
@@ -410,10 +413,10 @@ func c06NotEarly(c *Ctx, loop *ssa.Function) {
 				}
 			}
 		}
-		r.Check(ok2, "C06.Q5-not-early", fmt.Sprintf("events/queue.Processor.processLoop execute#%d", n), p.Pos(call.Pos()), "item executed only when due (threshold <= 500µs or its own timer fired)", why)
+		r.Check(ok2, c06Prefix+"Q5-not-early", fmt.Sprintf("events/queue.Processor.processLoop execute#%d", n), p.Pos(call.Pos()), "item executed only when due (threshold <= 500µs or its own timer fired)", why)
 	})
 	if n == 0 {
-		r.Violation("C06.Q5-not-early", "events/queue.Processor.processLoop execute#1", p.Pos(loop.Pos()), "processLoop never executes items")
+		r.Violation(c06Prefix+"Q5-not-early", "events/queue.Processor.processLoop execute#1", p.Pos(loop.Pos()), "processLoop never executes items")
 	}
 }
 
@@ -457,10 +460,10 @@ func c06Enqueue(c *Ctx, lockID string) {
 		nIns++
 		args := call.Call.Args
 		k, isK := args[len(args)-1].(*ssa.Const)
-		r.Check(isK && k.Value != nil && k.Value.String() == "true", "C06.Q6-enqueue", "events/queue.Processor.Enqueue insert", p.Pos(call.Pos()), "Insert(r, replace=true)", "Enqueue does not replace an existing item with the same key: the superseded value would still be executed and the new one dropped")
+		r.Check(isK && k.Value != nil && k.Value.String() == "true", c06Prefix+"Q6-enqueue", "events/queue.Processor.Enqueue insert", p.Pos(call.Pos()), "Insert(r, replace=true)", "Enqueue does not replace an existing item with the same key: the superseded value would still be executed and the new one dropped")
 	})
 	if nIns == 0 {
-		r.Violation("C06.Q6-enqueue", "events/queue.Processor.Enqueue insert", p.Pos(enq.Pos()), "Enqueue no longer inserts into the queue")
+		r.Violation(c06Prefix+"Q6-enqueue", "events/queue.Processor.Enqueue insert", p.Pos(enq.Pos()), "Enqueue no longer inserts into the queue")
 	}
 	// process() on every path after the insert (must), under the lock
 	ff := &FlagFlow{Fn: enq, Must: true, Transfer: func(in ssa.Instruction, st uint64) uint64 {
@@ -481,7 +484,7 @@ func c06Enqueue(c *Ctx, lockID string) {
 			okP = false
 		}
 	})
-	r.Check(okP, "C06.Q6-enqueue", "events/queue.Processor.Enqueue process", p.Pos(enq.Pos()), "every path that inserted calls process() under the lock", "a path through Enqueue inserts an item without calling process() under the lock: no loop is started or poked for it")
+	r.Check(okP, c06Prefix+"Q6-enqueue", "events/queue.Processor.Enqueue process", p.Pos(enq.Pos()), "every path that inserted calls process() under the lock", "a path through Enqueue inserts an item without calling process() under the lock: no loop is started or poked for it")
 	// reset signal: in process(), on default path under isNext, a send on resetCh
 	resetCh := "field:" + q + ".Processor.resetCh"
 	okReset := false
@@ -502,7 +505,7 @@ func c06Enqueue(c *Ctx, lockID string) {
 			}
 		}
 	})
-	r.Check(okReset, "C06.Q6-enqueue", "events/queue.Processor.process reset", p.Pos(proc.Pos()), "head change is signalled to a running loop", "process(isNext=true) no longer signals a running loop that the head changed: an earlier item waits for the previous head's timer")
+	r.Check(okReset, c06Prefix+"Q6-enqueue", "events/queue.Processor.process reset", p.Pos(proc.Pos()), "head change is signalled to a running loop", "process(isNext=true) no longer signals a running loop that the head changed: an earlier item waits for the previous head's timer")
 }
 
 func c06Order(c *Ctx) {
@@ -524,7 +527,7 @@ func c06Order(c *Ctx) {
 			}
 		}
 	})
-	r.Check(ok, "C06.Q7-order", "events/queue.queueHeap.Less", p.Pos(less.Pos()), "min-heap on ScheduledTime", "Less is no longer 'item i is scheduled before item j': the head of the queue is not the earliest item and callbacks run out of scheduled-time order")
+	r.Check(ok, c06Prefix+"Q7-order", "events/queue.queueHeap.Less", p.Pos(less.Pos()), "min-heap on ScheduledTime", "Less is no longer 'item i is scheduled before item j': the head of the queue is not the earliest item and callbacks run out of scheduled-time order")
 }
 
 // c06IndexParam: v = pq[param k].value.ScheduledTime() → k (index into fn.Params), else -1.
